@@ -1146,6 +1146,61 @@ def r_val_auth(E):
     return res
 
 
+@rule("R-KINDCOVER")
+def r_kindcover(E):
+    pm = E.pm
+    res = RuleResult("R-KINDCOVER", "where the update machinery asks whether a replaced value is an explainable value by "
+                                    "naming classes, the classes named cover every class of explainable value: a test that "
+                                    "lists the value classes of explainable_objects.py (quantity, hourly quantities, empty) "
+                                    "means 'any explainable object' and must not leave out the other subclasses of "
+                                    "ExplainableObject (SourceObject: a country's time zone, a builder's technology), whose "
+                                    "edits would then trigger no recomputation")
+    if "ExplainableObject" not in pm.classes:
+        raise AnalysisError("R-KINDCOVER: ExplainableObject vanished")
+    family = set(pm.subclasses("ExplainableObject")) - {"ExplainableObject"}
+    direct = {c for c in family if "ExplainableObject" in [norm(b).split(".")[-1] for b in pm.classes[c].node.bases]}
+    value_mod = pm.classes["ExplainableQuantity"].module if "ExplainableQuantity" in pm.classes else None
+    value_classes = {c for c in direct if pm.classes[c].module == value_mod}
+    if len(value_classes) < 3 or not (direct - value_classes):
+        raise AnalysisError(f"R-KINDCOVER: class family not as confirmed by hand (value classes {sorted(value_classes)}, "
+                            f"direct subclasses {sorted(direct)})")
+    for mod, (rel, tree, src) in sorted(pm.modules.items()):
+        if "abstract_modeling_classes/" not in rel or rel.endswith("explainable_objects.py"):
+            continue
+        for fn in [f for f in ast.walk(tree) if isinstance(f, ast.FunctionDef)]:
+            # isinstance(x, (A, B, …)) and `isinstance(x, A) or isinstance(x, B) …` on the same x
+            groups = []
+            for n in ast.walk(fn):
+                if isinstance(n, ast.Call) and isinstance(n.func, ast.Name) and n.func.id == "isinstance" and len(n.args) == 2:
+                    res.instances += 1
+                    if isinstance(n.args[1], ast.Tuple):
+                        groups.append((n, norm(n.args[0]), [norm(e) for e in n.args[1].elts]))
+                if isinstance(n, ast.BoolOp) and isinstance(n.op, ast.Or):
+                    parts = [v for v in n.values if isinstance(v, ast.Call) and isinstance(v.func, ast.Name)
+                             and v.func.id == "isinstance" and len(v.args) == 2 and isinstance(v.args[1], ast.Name)]
+                    if len(parts) == len(n.values) and len({norm(v.args[0]) for v in parts}) == 1:
+                        groups.append((n, norm(parts[0].args[0]), [v.args[1].id for v in parts]))
+            for node, subj, names in groups:
+                named = {x.split(".")[-1] for x in names}
+                if not value_classes <= named or "ExplainableObject" in named:
+                    continue
+                covered = set()
+                for c in named & set(pm.classes):
+                    covered |= set(pm.subclasses(c)) | {c}
+                left_out = sorted(family - covered)
+                if left_out:
+                    pc = getattr(fn, "_parent", None)
+                    q = f"{pc.name}.{fn.name}" if isinstance(pc, ast.ClassDef) else fn.name
+                    res.findings.append(Finding(
+                        "R-KINDCOVER", f"{q} :: {norm(node)[:80]}",
+                        f"{q} recognises an explainable value with `{norm(node)[:90]}`: every value class of "
+                        f"explainable_objects.py is named, but {left_out} derive from ExplainableObject too and are left out — "
+                        f"a change of such an input (the time zone of a country is a SourceObject) is then no input-value "
+                        f"change: nothing that depends on it is recomputed", rel, node.lineno, q))
+    res.floor = 20
+    return res
+
+
 MODEL_DIRS = ("efootprint/core/", "efootprint/builders/services/", "efootprint/builders/hardware/boavizta_cloud_server.py")
 
 
